@@ -93,6 +93,12 @@ Definition allow_list : list allow := [
     "hands the node tree to encoding/gob's Encoder, which only reads the value it encodes; unexported and without callers";
   mkAllow "otto.Script.filename" "otto.(*Script).unmarshalBinary" [] "as otto.Script.version";
   mkAllow "otto.Script.src" "otto.(*Script).unmarshalBinary" [] "as otto.Script.version";
+  mkAllow "closure *otto.object read" "otto.(*runtime).newErrorObject" []
+    "the 'stack' getter of an Error object reads obj.value, the ottoError payload fixed when the object was made; in a copy it reads the template's payload, which is the same immutable text";
+  mkAllow "closure *otto.object read" "otto.(*runtime).newErrorObjectError" []
+    "as newErrorObject";
+  mkAllow "closure *otto.runtime call" "otto.(*runtime).toValue" []
+    "KNOWN FINDING C20-bridged-func-template-runtime (findings/C20.json, pinned witness in the race run, proposed_fixes/C20-bridged-func-runtime.diff): the wrapper of a bridged Go func converts arguments and results with the runtime that bridged it, so in a copy results are built in the template's heap";
   mkAllow "file.File.sm" "file.(*File).WithSourceMap" ["parser.newParser"]
     "builder-style setter applied by parser.newParser to the File it has just created with file.NewFile, before the File is reachable from any Program"
 ].
@@ -105,7 +111,7 @@ Definition allowed (subject fn : string) : bool := existsb (allow_matches subjec
 (* the nilGetSetObject entries are alias sites: the function is not a mutator and
    its callers are irrelevant; for the others every mention must be accounted for *)
 Definition callers_bounded (calls : list call_edge) (a : allow) : bool :=
-  seqb (a_subject a) "otto.nilGetSetObject" ||
+  seqb (a_subject a) "otto.nilGetSetObject" || has_prefix "closure " (a_subject a) ||
   forallb (fun c => negb (seqb (c_callee c) (a_func a)) || c_init c || str_in (c_caller c) (a_callers a)) calls.
 
 (* ---- per-site verdicts ---- *)
@@ -143,10 +149,15 @@ Definition copy_ok (c : copy_site) : bool :=
 Definition clone_field_ok (c : clone_field) : bool :=
   negb (seqb (cf_how c) "verbatim" && cf_ref c) || allowed (cf_type c ++ "." ++ cf_field c) (cf_func c).
 
+(* a native closure over an object/runtime of its creator keeps working on the TEMPLATE's object or
+   runtime when it is called in a copy: each one needs an allow-list entry for exactly its kind of use *)
+Definition closure_ok (c : native_closure) : bool :=
+  allowed ("closure " ++ nc_type c ++ " " ++ nc_usage c) (nc_func c).
+
 Definition audit (vars : list var_entry) (fields : list field_entry) (calls : list call_edge)
-           (copies : list copy_site) (cfields : list clone_field) : bool :=
+           (copies : list copy_site) (cfields : list clone_field) (closures : list native_closure) : bool :=
   forallb var_ok vars && forallb field_ok fields && forallb (callers_bounded calls) allow_list &&
-  forallb copy_ok copies && forallb clone_field_ok cfields.
+  forallb copy_ok copies && forallb clone_field_ok cfields && forallb closure_ok closures.
 
 (* ---- the translator must have seen what is known to be there (non-vacuity of the table) ---- *)
 
@@ -161,8 +172,11 @@ Definition field_has_site (fields : list field_entry) (t n : string) (k : site_k
              existsb (fun s => kind_eqb (s_kind s) k && seqb (s_file s) file) (f_sites f)) fields.
 
 Definition table_sane (vars : list var_entry) (fields : list field_entry) (calls : list call_edge)
-           (copies : list copy_site) (cfields : list clone_field) (type_errors : Z) : bool :=
+           (copies : list copy_site) (cfields : list clone_field) (closures : list native_closure)
+           (type_errors : Z) : bool :=
   (type_errors =? 0)%Z &&
+  (* closure detection works: the Error.stack getter's capture is reported *)
+  existsb (fun c => seqb (nc_func c) "otto.(*runtime).newErrorObject" && seqb (nc_var c) "obj" && seqb (nc_usage c) "read") closures &&
   (* the copying functions are found and read: known treatments are reported *)
   existsb (fun c => seqb (cf_type c) "otto.runtime" && seqb (cf_field c) "stackLimit" && seqb (cf_how c) "verbatim" && seqb (cf_func c) "otto.(*runtime).clone") cfields &&
   existsb (fun c => seqb (cf_type c) "otto.runtime" && seqb (cf_field c) "global" && seqb (cf_how c) "cloned") cfields &&
@@ -203,7 +217,10 @@ Definition site_line (subject : string) (s : site) : string :=
   s_file s ++ ":" ++ zstr (s_line s) ++ " " ++ subject ++ " (" ++ kind_name (s_kind s) ++ " in " ++ s_func s ++ ")".
 
 Definition failing_report (vars : list var_entry) (fields : list field_entry) (calls : list call_edge)
-           (copies : list copy_site) (cfields : list clone_field) : list string :=
+           (copies : list copy_site) (cfields : list clone_field) (closures : list native_closure) : list string :=
+  map (fun c => nc_file c ++ ":" ++ zstr (nc_line c) ++ " native closure over " ++ nc_var c ++ " (" ++ nc_type c ++ ", " ++ nc_usage c ++
+                ") created in " ++ nc_func c ++ ": shared with copies by clone")
+      (filter (fun c => negb (closure_ok c)) closures) ++
   map (fun c => cf_file c ++ ":" ++ zstr (cf_line c) ++ " " ++ cf_type c ++ "." ++ cf_field c ++ " (" ++ cf_ftype c ++
                 " handed to the copy untranslated by " ++ cf_func c ++ ")")
       (filter (fun c => negb (clone_field_ok c)) cfields) ++
@@ -214,4 +231,4 @@ Definition failing_report (vars : list var_entry) (fields : list field_entry) (c
   flat_map (fun a => map (fun c => c_file c ++ ":" ++ zstr (c_line c) ++ " " ++ a_subject a ++
                                    " (allow-listed mutator " ++ a_func a ++ " now called from " ++ c_caller c ++ ")")
                          (filter (fun c => seqb (c_callee c) (a_func a) && negb (c_init c) && negb (str_in (c_caller c) (a_callers a))) calls))
-           (filter (fun a => negb (seqb (a_subject a) "otto.nilGetSetObject")) allow_list).
+           (filter (fun a => negb (seqb (a_subject a) "otto.nilGetSetObject") && negb (has_prefix "closure " (a_subject a))) allow_list).
